@@ -78,7 +78,8 @@ class Plugin(BasePlugin):
             if k == 'drop_index':
                 o['name'] = rng.choice(['x_1', 'y_1'])
             if k == 'rename':
-                o['new'] = rng.choice([n for n in COLLS[:3] if n != o['c']] + (['bad..name'] if rng.random() < 0.05 else []))
+                o['new'] = rng.choice(COLLS[:3] + [n for n in COLLS[:3] if n != o['c']]
+                                      + (['bad..name'] if rng.random() < 0.05 else []))
                 o['drop_target'] = rng.random() < 0.4
             if k == 'drop_collection':
                 o['via'] = rng.choice(['name', 'handle', 'coll.drop'])
